@@ -320,6 +320,47 @@ def package_lints(model, rep, rule, paths):
                 rep.violation(rule, f'{fname}:unmangled-store[{x.attr}]',
                               f'`{_ast.unparse(x)} = ...` in a module-level function is not name-mangled: it sets a new attribute `{x.attr}` instead of the '
                               f'private field `_<Class>{x.attr}` the class reads, which keeps its old value', f'{mod}:{x.lineno}')
+    # `super(type(self), ...)` / `super(self.__class__, ...)`: for an instance of a subclass the lookup starts above the SUBCLASS and
+    # finds this very method again - unbounded recursion; the first argument must be the class the code is written in
+    for cname, ci in model.classes.items():
+        if not any(p_ in ci.module for p_ in paths):
+            continue
+        for mem in ci.all_members():
+            for x in _ast.walk(mem.node):
+                if isinstance(x, _ast.Call) and isinstance(x.func, _ast.Name) and x.func.id == 'super' and x.args:
+                    a0 = x.args[0]
+                    dyn = (isinstance(a0, _ast.Call) and isinstance(a0.func, _ast.Name) and a0.func.id == 'type') or \
+                        (isinstance(a0, _ast.Attribute) and a0.attr == '__class__')
+                    if dyn:
+                        n += 1
+                        rep.violation(rule, f'{mem.qualname}:super-of-dynamic-class@{x.lineno}',
+                                      f'`{_ast.unparse(x)[:60]}` starts the lookup above the class of the OBJECT, not above {cname}: for an instance '
+                                      f'of a subclass it resolves to this same method and recurses without end', f'{ci.module}:{x.lineno}')
+    # exact-class tests (`type(x) is C`, `type(x) == C`, `type(x) in (...)`, Counter / dict keyed by type(x)): an instance of a subclass
+    # of C is a C everywhere else in the package (isinstance), and is not recognised here
+    for mod_, tree_ in model.trees.items():
+        if not any(p_ in mod_ for p_ in paths):
+            continue
+
+        def _is_type_of(e):
+            return (isinstance(e, _ast.Call) and isinstance(e.func, _ast.Name) and e.func.id == 'type' and len(e.args) == 1) or \
+                (isinstance(e, _ast.Attribute) and e.attr == '__class__')
+        for x in _ast.walk(tree_):
+            hit = None
+            if isinstance(x, _ast.Compare) and any(isinstance(o, (_ast.Eq, _ast.NotEq, _ast.Is, _ast.IsNot, _ast.In, _ast.NotIn)) for o in x.ops):
+                sides = [x.left] + list(x.comparators)
+                if any(_is_type_of(e) for e in sides) and not all(_is_type_of(e) for e in sides):
+                    hit = x
+            if isinstance(x, _ast.Call) and isinstance(x.func, _ast.Name) and x.func.id in ('Counter', 'set', 'frozenset') and x.args \
+                    and isinstance(x.args[0], (_ast.GeneratorExp, _ast.ListComp, _ast.SetComp)) and _is_type_of(x.args[0].elt):
+                hit = x
+            if isinstance(x, _ast.DictComp) and _is_type_of(x.key):
+                hit = x
+            if hit is not None:
+                n += 1
+                rep.violation(rule, f'{mod_.split("/")[-1]}:exact-class-test@{hit.lineno}',
+                              f'`{_ast.unparse(hit)[:70]}` decides by the exact class of an object: an instance of a subclass (a user\'s own gear or '
+                              f'motor class) is not recognised, while every other test of the package uses isinstance', f'{mod_}:{hit.lineno}')
     # a closure over `self` kept ON the object (`self.__samplers[k] = lambda: self.x`): copy.deepcopy treats functions as atoms, so
     # the closures of a copied object still read the ORIGINAL object - the copy records / computes from somebody else's state
     for cname, ci in model.classes.items():
